@@ -564,3 +564,17 @@ Definition omp_static (n nt : nat) : list (list nat) := chunks (omp_sizes n nt) 
 Fixpoint find_thread (i : nat) (qs : list (list nat)) (t : nat) : nat :=
   match qs with [] => t | q :: r => if existsb (Nat.eqb i) q then t else find_thread i r (S t) end.
 Definition omp_thread_of (n nt i : nat) : nat := find_thread i (omp_static n nt) 0.
+
+(* ------------------------------------------------------------------------------------------- *)
+(* 13. Script callbacks: one interpreter with a single result slot                               *)
+(* ------------------------------------------------------------------------------------------- *)
+(* run_colvar_callback of a scripted variable v: the procedure leaves f v in the interpreter's result slot ((v, true)), the caller
+   then fetches the slot ((v, false)).  calc_colvars combines the variables in a SERIAL loop on the main thread after the parallel
+   component loop, so the two halves of one callback are adjacent. *)
+Fixpoint slot_exec (ops : list (nat * bool)) (slot : Z) (f : nat -> Z) : list (nat * Z) :=
+  match ops with
+  | [] => []
+  | (v, true) :: r => slot_exec r (f v) f
+  | (v, false) :: r => (v, slot) :: slot_exec r slot f
+  end.
+Definition serial_callbacks (vs : list nat) : list (nat * bool) := flat_map (fun v => [(v, true); (v, false)]) vs.
